@@ -77,6 +77,12 @@ func Gosched() {
 	rt.Gosched()
 }
 
+// AddCleanup: cleanups run at the garbage collector's discretion, from a goroutine of the runtime -- a source of
+// nondeterminism no run may depend on. "Never" is a legal schedule for them, and the only replayable one.
+func AddCleanup[T, S any](ptr *T, cleanup func(S), arg S) Cleanup { return Cleanup{} }
+
+type Cleanup = runtime.Cleanup
+
 func Goexit()                                              { runtime.Goexit() }
 func GC()                                                  {}
 func KeepAlive(x any)                                      { runtime.KeepAlive(x) }
